@@ -408,7 +408,14 @@ Example C09_example_step_by :
     /\ sb_size_hint (sb_consume 4 t) = (0, Some 0)
     /\ step_by 0 s = Panic AssertFail
     /\ next (ISkip s 3) = (Some (VZ 3), ISkip (snd (nth_it 3 s)) 0).
-Proof. eexists. eexists. vm_compute. repeat split; auto. Qed.
+Proof.
+  (* witnesses computed first, every conjunct closed by its own vm_compute (a VM cast: Qed does not re-normalise lazily) *)
+  let r := eval vm_compute in (vshift 1 None (IList [VZ 1; VZ 2; VZ 3; VZ 4; VZ 5; VZ 6; VZ 7])) in
+  match r with Ok ?s => exists s;
+    let r2 := eval vm_compute in (step_by 2 s) in
+    match r2 with Ok ?t => exists t end end.
+  repeat split; vm_compute; reflexivity.
+Qed.
 
 (* ==== (YA) AUDIT =========================================================================================
    notes/C09.md has the clause-by-clause matrix.  Added vocabulary (Model/IterAudit.v, Proofs/Audit09.v):
